@@ -34,6 +34,9 @@ func nonPrintable(s string) string {
 
 var quoteBytesAlpha = []byte{'a', '\'', '"', '`', '\\', '\n', '\r', '\t', 0, 0x7f, 0x80, 0xc3, 0xa9, 0xff, ' ', '?', 'x', '0', 'I', 'F'}
 
+var quotePieces = []string{"a", "é", "€", "\U0001F600", "\ufffd", "\xff", "\x80", "\xc3", "\xe2\x82", "\xf0\x9f\x98", "\xc0\xaf", "\xed\xa0\x80",
+	"\\", "'", "\"", "`", "\n", "\x00", "\x7f", "\u0085", "\u2028"}
+
 func quoteInputs(tier string, r *rng, each func(string)) {
 	// every 1- and 2-byte string
 	for a := 0; a < 256; a++ {
@@ -74,6 +77,24 @@ func quoteInputs(tier string, r *rng, each func(string)) {
 	for _, s := range []string{"if", "If", "select", "_a1", "1a", "a b", "a-b", "", "é", "a\x00", "\xff\xfe", "\xe2\x82", "\xed\xa0\x80", "\xf4\x90\x80\x80", "\xc0\xaf", "\xef\xbf\xbd"} {
 		each(s)
 	}
+	// every sequence of up to 3 (quick) / 4 (thorough) PIECES: one representative per way a stretch of the value can matter to
+	// the quoting loop and to the lexer's decoder — valid runes of each encoded length, the genuine replacement character, each
+	// kind of invalid byte / truncated / overlong / surrogate sequence, the characters with escapes, delimiters, non-printables
+	depth := 3
+	if tier == "thorough" {
+		depth = 4
+	}
+	var rec func(cur string, k int)
+	rec = func(cur string, k int) {
+		if k == 0 {
+			return
+		}
+		for _, pc := range quotePieces {
+			each(cur + pc)
+			rec(cur+pc, k-1)
+		}
+	}
+	rec("", depth)
 	n := 3000
 	if tier == "thorough" {
 		n = 100000
